@@ -2279,9 +2279,11 @@ func (w *World) eachInstrThrough(fn *ssa.Function, depth int, cb func(in ssa.Ins
 			if h == nil || !w.IsMod[h] || len(h.Blocks) == 0 || d <= 0 {
 				return
 			}
-			if obj := h.Object(); obj == nil || (obj.Exported() && h.Signature.Recv() == nil) {
-				return
-			}
+			if h.Parent() == nil {
+				if obj := h.Object(); obj == nil || (obj.Exported() && h.Signature.Recv() == nil) {
+					return
+				}
+			} // (a function literal called in place — a scoped critical section — is body)
 			// exported methods of unexported use are entered too when they are small helpers of
 			// the same package (refresh/start of an element type)
 			if fnPkgPath(h) != fnPkgPath(fn) {
